@@ -13,10 +13,13 @@
    COMPLETE enumeration inside Coq (vm_compute of a forallb, lifted by forallb_forall) of
    Model/EventsUniverse.v: 783 paths (3 channel paths x 9 subdirectory variants x 29 file
    variants) x 5 move destinations x 36 flag combinations x 49 windows (times at and 1 ms around
-   the file times).  The other theorems hold for ALL paths / names. *)
+   the file times).  The other theorems hold for ALL paths / names; those about the full-path
+   patterns assume `no_ts_ancestor d`: the directory d of the file has no timestamped directory
+   strictly above its last component ("files at the format's depth"; decidable:
+   no_ts_ancestor_b_sound). *)
 From Coq Require Import ZArith List Bool.
 From DRF Require Import Base.Regex Base.WordLit Gen.Grammar Model.PathSpec Model.Events Model.EventsUniverse
-  Proofs.GrammarProofs Proofs.PathSpecProofs Proofs.EventsProofs.
+  Proofs.GrammarProofs Proofs.PathSpecProofs Proofs.EventsProofs Proofs.EventPathProofs.
 Import ListNotations.
 Local Open Scope Z_scope.
 
@@ -125,3 +128,33 @@ Theorem C15_moved_both_match_uses_dest_time : forall rs st en p q tp tq,
   dispatch_rs rs st en true (moved p q) = if window_ok st en tq then Deliver Moved p q else Dropped.
 Proof. exact moved_both_match_uses_dest_time. Qed.
 Print Assumptions C15_moved_both_match_uses_dest_time.
+
+(* never a tmp. file, for ALL directories at the format's depth, ALL names, flags, windows and
+   event kinds: none of the six regenerated path patterns matches d/tmp.x *)
+Theorem C15_never_tmp : forall f st en k d base,
+  ~ In sep base -> starts_with (W "tmp.") base = true -> no_ts_ancestor d ->
+  accepts f st en k (d ++ sep :: base) = false.
+Proof. exact never_tmp_unbounded. Qed.
+Print Assumptions C15_never_tmp.
+
+Theorem C15_event_patterns_never_tmp : forall x d base,
+  ~ In sep base -> starts_with (W "tmp.") base = true -> no_ts_ancestor d ->
+  rmatch events_ci (re_of x) (d ++ sep :: base) = None.
+Proof. exact event_patterns_never_tmp. Qed.
+Print Assumptions C15_event_patterns_never_tmp.
+
+(* the writer's finalizing rename d/tmp.b -> d/b, for ALL such paths: delivered as the creation of
+   d/b exactly when the filter accepts d/b (some selected pattern matches it and its captured time
+   lies in the inclusive window), dropped otherwise *)
+Theorem C15_finalize_is_creation_unbounded : forall f st en d b ti,
+  ~ In sep b -> no_ts_ancestor d -> select_regexes f <> [] ->
+  classify (select_regexes f) (d ++ sep :: b) = Some ti -> ti <> BadInt ->
+  dispatch f st en (moved (d ++ sep :: W "tmp." ++ b) (d ++ sep :: b)) =
+    Some (if window_ok st en ti then Deliver Created (d ++ sep :: b) [] else Dropped).
+Proof. exact finalize_is_creation_unbounded. Qed.
+Print Assumptions C15_finalize_is_creation_unbounded.
+
+(* the hypothesis is decidable *)
+Theorem C15_no_ts_ancestor_decidable : forall d, no_ts_ancestor_b d = true -> no_ts_ancestor d.
+Proof. exact no_ts_ancestor_b_sound. Qed.
+Print Assumptions C15_no_ts_ancestor_decidable.
